@@ -24,3 +24,13 @@ Theorem C20_iter : forall b, fits b ->
   exists p, parse (layout b) = Ok p /\ iter_modules p = present (ab_modules b) 0.
 Proof. exact RamProofs.C20_iter. Qed.
 Print Assumptions C20_iter.
+
+(* ANY physical layout: whatever buffer holds the header fields, the startup code, the table entries and each module body
+   (with its NUL) where the entries say -- bodies in any order, with gaps or shared bytes -- is parsed back exactly *)
+From SM Require Import Proofs.RamAnyLayout.
+Theorem C20_any_layout : forall bs startup mods, wf_indexed bs startup mods ->
+  exists p, parse bs = Ok p /\ b_count p = zlen mods /\ startup_code p = Ok startup
+            /\ (forall pre x post, mods = pre ++ x :: post -> get_module p (zlen pre) = Ok x)
+            /\ (forall id, zlen mods <= id -> get_module p id = Err ERamIndex).
+Proof. exact RamAnyLayout.C20_any_layout. Qed.
+Print Assumptions C20_any_layout.
